@@ -169,6 +169,40 @@ Proof.
   specialize (H j sch Hl Hne). destruct (alookup j (st_facts s')); [reflexivity|contradiction].
 Qed.
 
+(** the registry only looks at the stored facts *)
+Lemma registry_exact_pending reg s p : registry_exact reg (set_pending s p) = registry_exact reg s.
+Proof. reflexivity. Qed.
+
+(** nothing expired: a Get answers from the fact map and only empties the
+    list of noted ids; so does the purge that ends a Rem *)
+Lemma st_get_noexp_eq s id now :
+  no_expired s now ->
+  st_get s id now = (set_pending s [],
+                     match alookup id (st_facts s) with Some f => Ok f | None => Err "notfound" end).
+Proof.
+  intros Hne. unfold st_get.
+  rewrite (DurableExpiry.with_purge_noexp (get_body s id now) now)
+    by (rewrite (DurableExpiry.get_body_noexp s id now Hne); exact Hne).
+  rewrite (DurableExpiry.get_body_noexp s id now Hne). f_equal.
+  unfold get_body. destruct (alookup id (st_facts s)) as [f|] eqn:El; [|reflexivity].
+  rewrite (expire_false s id f now (Hne id f El)). reflexivity.
+Qed.
+
+Lemma st_Rem_hooks_noexp s id now :
+  no_expired s now -> st_hooks s = true ->
+  st_Rem s id now =
+  match alookup id (st_facts s) with
+  | Some _ => (set_pending (fst (st_rem (set_pending s []) id now)) [], snd (st_rem (set_pending s []) id now))
+  | None => (set_pending s [], Err "notfound")
+  end.
+Proof.
+  intros Hne Hh. unfold st_Rem. rewrite Hh, (st_get_noexp_eq s id now Hne).
+  destruct (alookup id (st_facts s)) as [f|].
+  - rewrite DurableExpiry.with_purge_noexp; [reflexivity|].
+    eapply Sub_no_expired; [apply st_rem_Sub|exact Hne].
+  - rewrite DurableExpiry.with_purge_noexp; [reflexivity|exact Hne].
+Qed.
+
 Theorem cstep_exact : cstep_exact_statement.
 Proof.
   intros persistent s reg o s' reg' Hex W Hh Hf Hne Hd Hc.
@@ -225,23 +259,27 @@ Proof.
     + apply Hfailcase; [|reflexivity]. destruct Hcnd as (_ & _ & e & _ & ->). eauto.
     + apply Hokcase; [apply Hcnd|reflexivity].
   - (* Rem *)
-    cbn [cstep] in Hc. injection Hc as <- <-.
-    cbn [direct] in Hd.
+    unfold cstep in Hc. unfold direct in Hd.
+    rewrite (st_Rem_hooks_noexp s id now Hne Hh) in Hc, Hd.
+    injection Hc as <- <-.
     unfold calls_rem. rewrite Hh. cbn [negb].
-    unfold st_Rem in *. rewrite Hh in *. unfold st_get in *.
+    rewrite (st_get_noexp_eq s id now Hne).
     destruct (alookup id (st_facts s)) as [fact|] eqn:El.
-    + rewrite (Hne id fact El) in *.
-      pose proof (st_rem_Sub s id now) as (_ & _ & _ & _ & HS & _).
-      pose proof (st_rem_wf s id now W) as W1.
-      destruct (st_rem_ok_nofail s id now Hf) as (had & Hok).
-      pose proof (st_rem_gone s id now had Hok) as Hgone.
-      pose proof (others_kept_spec s _ id W Hd) as Hk.
-      set (s1 := fst (st_rem s id now)) in *.
+    + set (s0 := set_pending s []) in *.
+      assert (W0 : st_wf s0) by (apply wf_pending; exact W).
+      assert (Hf0 : st_fail s0 = None) by exact Hf.
+      pose proof (st_rem_Sub s0 id now) as (_ & _ & _ & _ & HS & _).
+      pose proof (st_rem_wf s0 id now W0) as W1.
+      destruct (st_rem_ok_nofail s0 id now Hf0) as (had & Hok).
+      pose proof (st_rem_gone s0 id now had Hok) as Hgone.
+      cbn [fst] in Hd. pose proof (others_kept_spec s _ id W Hd) as Hk.
+      cbn [fst]. rewrite registry_exact_pending.
+      set (s1 := fst (st_rem s0 id now)) in *.
       assert (Hreg' : forall j, alookup j (aremove id reg) = olk j s1).
       { intros j. rewrite alookup_aremove. destruct (String.eqb_spec j id) as [->|Hj].
         - unfold olk. rewrite Hgone. reflexivity.
         - rewrite Hreg. unfold olk at 2. destruct (alookup j (st_facts s1)) as [f|] eqn:E1.
-          + apply HS in E1. unfold olk. rewrite E1. reflexivity.
+          + apply HS in E1. unfold olk. change (st_facts s0) with (st_facts s) in E1. rewrite E1. reflexivity.
           + destruct (olk j s) as [sch|] eqn:Eo; [|reflexivity]. exfalso.
             rewrite <- (sched_lookup s j W) in Eo. exact (Hk j sch Eo Hj E1). }
       destruct (fact_schedule fact) as [sch|] eqn:Es; cbn [fold_left apply_call].
@@ -249,11 +287,29 @@ Proof.
       * apply exact_intro; [exact W1|exact Hsr|]. intros j. rewrite <- Hreg'.
         rewrite alookup_aremove. destruct (String.eqb_spec j id) as [->|Hj]; [|reflexivity].
         rewrite Hreg. unfold olk. rewrite El. exact Es.
-    + cbn [fst fold_left]. exact Hex.
+    + cbn [fst fold_left]. rewrite registry_exact_pending. exact Hex.
   - (* Get *)
-    cbn [cstep] in Hc. injection Hc as <- <-. rewrite (DurableExpiry.st_get_noexp s id now Hne). exact Hex.
-  - cbn [cstep] in Hc. injection Hc as <- <-. rewrite (DurableExpiry.st_search_noexp s p now Hne). exact Hex.
-  - cbn [cstep] in Hc. injection Hc as <- <-. rewrite (DurableExpiry.st_find_rules_noexp s ev now Hne). exact Hex.
+    unfold cstep in Hc. rewrite (st_get_noexp_eq s id now Hne) in Hc. cbn [fst] in Hc.
+    injection Hc as <- <-. rewrite registry_exact_pending. exact Hex.
+  - unfold cstep in Hc. unfold st_search in Hc.
+    rewrite DurableExpiry.with_purge_noexp in Hc
+      by (rewrite (DurableExpiry.search_state_noexp_state s p now Hne); exact Hne).
+    rewrite (DurableExpiry.search_state_noexp_state s p now Hne) in Hc. cbn [fst] in Hc.
+    injection Hc as <- <-. rewrite registry_exact_pending. exact Hex.
+  - unfold cstep in Hc.
+    assert (Hfr : exists p0, fst (st_find_rules s ev now) = set_pending s p0).
+    { unfold st_find_rules, do_find_rules.
+      match goal with |- context [with_purge ?X now] =>
+        assert (HX : fst X = s);
+        [destruct (st_kind s);
+         [destruct (pi_search (st_pindex s) ev); try reflexivity;
+          apply DurableExpiry.find_ids_idx_noexp; exact Hne
+         |apply DurableExpiry.find_ids_lin_noexp; exact Hne]|];
+        rewrite (DurableExpiry.with_purge_noexp X now) by (rewrite HX; exact Hne); rewrite HX
+      end.
+      exists []. match goal with |- fst (match ?o with _ => _ end) = _ => destruct o end; reflexivity. }
+    destruct Hfr as [p0 Hfr]. rewrite Hfr in Hc. injection Hc as <- <-.
+    rewrite registry_exact_pending. exact Hex.
   - (* Clear *)
     cbn [cstep] in Hc. injection Hc as <- <-.
     pose proof (st_clear_wf s W) as W1.
